@@ -105,18 +105,18 @@ def _multi_tasked_steps(events):
 # ------------------------------------------------------------------------------------------
 def spec_level(ctx: Ctx):
     """Exhaustive model checking of the as-designed model + spec mutants."""
-    designed = ["greedy22", "munkres22", "random22", "greedy22_2eng", "greedy22_ser", "truthonly", "faults"]
+    designed = ["greedy22", "munkres22", "random22", "allvisible22", "greedy22_2eng", "greedy22_ser", "truthonly", "faults"]
     if not ctx.quick:
         designed += ["munkres23", "greedy32", "random23", "munkres33", "greedy33", "random33", "munkres22_3steps"]
     mutants = {"coded_reset": "PointingReflectsTasking", "coded_squared": "OneRecordPerTasking",
-               "coded_keep": "LastStepMissesOnly"}
+               "coded_keep": "LastStepMissesOnly", "coded_lastmerge": "PointingReflectsTasking"}
 
     def one(name):
         return name, tlc.run_tlc("MCResonaate", f"MCResonaate_{name}.cfg", ctx.sub("mc_" + name),
                                  workers=max(2, ctx.cpus // 3), timeout=3000, coverage=(name == "greedy22"))
 
     with ThreadPoolExecutor(3) as ex:
-        results = list(ex.map(one, designed + list(mutants) + ["allvisible22"]))
+        results = list(ex.map(one, designed + list(mutants)))
     killed = 0
     for name, res in results:
         tlc.require_ok(res, name)
@@ -126,8 +126,6 @@ def spec_level(ctx: Ctx):
             if mutants[name] not in viol:
                 raise tlc.MachineryError(f"spec mutant {name} not killed (expected {mutants[name]}, got {viol})")
             killed += 1
-        elif name == "allvisible22":
-            ctx.extra["allvisible_spec_counterexample"] = viol
         elif viol:
             raise tlc.MachineryError(f"as-designed model {name} violates {viol}:\n" + res.invariant_violations[0][1][-1])
         if name == "greedy22":
@@ -219,11 +217,6 @@ def classify(job, tr, verdict):
         what = "unexplained-" + str(ev.get("ev", "end"))
         if ev.get("ev") == "EndStep":
             what = "order-dependent-step-result"
-    at = verdict.get("at") or 0
-    fail_step = sum(1 for e in tr["events"][:max(at, 0)] if e["ev"] == "BeginStep") if at > 0 else 10 ** 6
-    if pol == "allvisible" and tr["multi_tasked_steps"] and fail_step >= min(tr["multi_tasked_steps"]) and what in (
-            "PointingReflectsTasking", "StepResultIsCanonical", "order-dependent-step-result", "unexplained-ApplyChanges"):
-        return f"allvisible-sensor-tasked-to-several-targets:{what}"
     return f"{pol}:{what}"
 
 
